@@ -16,6 +16,8 @@ BY_CLASSIFIER = {
     "recursive_negative_cycle_diverges": "F18",
     "slg_runaway_after_history": "F23",
     "log_item_order_changes_answer": "F2b",
+    "slg_work_budget_exceeded": "F29",
+    "slg_runaway_after_panic": "F30",
 }
 for f in d["findings"]:
     if f["classifier"] in BY_CLASSIFIER:
